@@ -610,7 +610,8 @@ BAD_MACS = [   # (text or object, sub-class) - unambiguously not a 48-bit MAC
     ('00 16 3e 33 44 55', 'foreign-separator'), ('00.16.3e.33.44.55', 'foreign-separator'),
     ('00:16:3e:33:44:-5', 'sign'), ('0x00163e334455', '0x-prefix'), ('mac', 'word'),
     (None, 'type-None'), (1.5, 'type-float'), ([], 'type-list'), ({}, 'type-dict'),
-    (95532827733.0, 'type-float-integral'), (0.0, 'type-float-integral'), (281474976710655.0, 'type-float-integral'),
+    ('\u0660\u0660:16:3e:33:44:55', 'non-ascii-digits'), ('\uff10\uff10:16:3e:33:44:5\uff15', 'non-ascii-digits'),
+    ('00:16:3e:33:44:5\u0665', 'non-ascii-digits'), (95532827733.0, 'type-float-integral'), (0.0, 'type-float-integral'), (281474976710655.0, 'type-float-integral'),
 ]
 BAD_PREFIXES = [
     ('', 'empty'), ('bogus', 'word'), ('bb', 'word'), ('2001:db8::/129', 'length>128'),
@@ -660,7 +661,9 @@ HOST_V6 = ['::', '::1', '2001:db8::1', '1:2:3:4:5:6:7:8', '2001:db8:85a3::8a2e:3
            '::ffff:1.2.3.4', '2001:DB8::A', 'ffff:ffff:ffff:ffff:ffff:ffff:ffff:ffff',
            '2001:0db8:0000:0000:0000:0000:0000:0001', '1::', '::8', '64:ff9b::192.0.2.33', '1234::1234']
 SCOPES = ['eth0', '1', 'lo', 'enp0s31f6', 'br-1234567890a', 'a' * 15, 'vlan.100', 'wlan0_1', '0', 'Eth0',
-          '25', '250', '2501', '25eth0', '2525', '3A', '2F']
+          '25', '250', '2501', '25eth0', '2525', '3A', '2F',
+          # short in characters, long in UTF-8 bytes (the 15 of the scope rule counts characters)
+          '\u0438\u043d\u0442\u0435\u0440\u0444\u0435\u0439\u0441', '\u63a5\u53e3' * 3, '\u00e9' * 14, 'eth\u00e9' * 3]
 SCOPE_ALPHABET = 'abcdefghijklmnopqrstuvwxyzABCDEFGHIJKLMNOPQRSTUVWXYZ0123456789._-'
 FAMILY_REPRESENTATIVES = [('server01.example.org', 'name'), ('192.168.1.254', 'ipv4'),
                           ('2001:db8:85a3::8a2e:370:7334', 'ipv6'), ('fe80::1%eth0', 'ipv6-scoped')]
